@@ -3,6 +3,9 @@ import PdshVerif.Pcp.Spec
 import PdshVerif.Pcp.Session
 import PdshVerif.Pcp.Links
 import PdshVerif.Pcp.Statics
+import PdshVerif.Pcp.ClientStatics
+import PdshVerif.Pcp.DeepSession
+import PdshVerif.Pcp.Allocbuf
 import Driver.Util
 
 /-! line protocol of the `pcp` engine (C11, C12): the receiver model `sink`, the sender model `send`,
@@ -19,6 +22,10 @@ the command-line construction and the two specifications, driven by checks/c11.p
     spec12 DESTPATH PATH...
     cmdf   PROG R P NENT DEST            cmdr PROG R P HOST FILE...
     norm   CWD STRING                    (lexical normal form of a path string)
+    deep   P Y UMASK CNT RULE DIRCHMOD FSIZE CWD DEST REVERSE HOST SUBSEC SENTFIX NFS FSENTRY... SRCTOKENS...
+                                         (Pcp/Deep.lean `classifyTop`, `dTopFs`, `dTopBad`)
+    cnt    ST_BLKSIZE                    (Pcp/Allocbuf.lean `allocSize`: bp->cnt for a file system block size)
+    cstatics                             (Pcp/ClientStatics.lean: the same for pcp_client.c, the client threads of a forward copy)
     statics ERRFPSHARED                  (Pcp/Statics.lean: the static objects of pcp_server.c the model accounts for, the
                                          process-wide libc calls it does not cover, and those it does)
 
@@ -324,6 +331,26 @@ def handle (line : String) : String :=
           showResult es (finish o s.st)
       | _, _ => "bad-op"
     | _, _, _ => "bad-op"
+  | "deep" :: p :: y :: um :: cnt :: rule :: dch :: fsz :: cwd :: dest :: rev :: host :: ssec :: sfix :: nfs :: rest =>
+    -- Pcp/Deep.lean: the sources classified against the target's file system, the file system `error_isolated_deep`
+    -- says the receiver ends with, and the number of error records it says are sent; looked at where the session
+    -- model (Pcp/Session.lean, repaired client) has touched something
+    match mkOpts p y um cnt rule dch fsz cwd dest, Hex.decode host, nfs.toNat? with
+    | some o, some host, some nfs =>
+      match parseEntries (rest.take nfs), parseSrcs (rest.drop nfs) with
+      | some es, some srcs =>
+        let so : SOpts := { preserve := o.preserve, reverse := flag rev, host := host, subsec := flag ssec,
+                            sentinelFix := flag sfix }
+        match resolve (fsOf es) o.cwd o.dest with
+        | some D =>
+          let items := classifyTop so (fsOf es) D srcs
+          let fs' := dTopFs o so (fsOf es) D items
+          let s := session so { skipRefused := true } o (fsOf es) (expandAll srcs)
+          let paths := (es.map (·.1) ++ (finish o s.st).touched.reverse).eraseDups
+          s!"replies=- touched=- ub=0 bad={dTopBad items} fs={commaJoin (paths.map fun p => showNode p (fs' p))}"
+        | none => "nodest"
+      | _, _ => "bad-op"
+    | _, _, _ => "bad-op"
   | "spec11" :: p :: dpath :: nfs :: rest =>
     match pathOfHex dpath, nfs.toNat? with
     | some dpath, some nfs =>
@@ -353,6 +380,13 @@ def handle (line : String) : String :=
   | ["statics", e] =>
     s!"defs={commaJoin ((serverStatics (flag e)).map (·.1))} forbidden={commaJoin processWideCalls} " ++
       s!"modelled={commaJoin modelledProcessWideCalls}"
+  | ["cnt", blk] =>
+    match blk.toNat? with
+    | some b => toString (allocSize b BUFSZ)
+    | none => "bad-op"
+  | ["cstatics"] =>
+    s!"defs={commaJoin clientStatics} forbidden={commaJoin clientProcessWideCalls} " ++
+      s!"expandonly={commaJoin clientExpandOnlyCalls}"
   | ["norm", cwd, s] =>
     match pathOfHex cwd, Hex.decode s with
     | some cwd, some s => hexOfPath (lexNorm cwd s)
